@@ -26,7 +26,7 @@ ASSUMPTIONS = ['"secret" is matched as a lower-case substring of the resource na
                'visible-control expectations are dropped for a host that contains a resource whose repr raises (the whole section is then reported as failed inline)']
 REQUIRED_REACH = ['secret-resources-rendered', 'redaction-marker-seen:html', 'redaction-marker-seen:json', 'visible-control-seen:html',
                   'visible-control-seen:json', 'json-view-parsed', 'cookie-key-hosts', 'depth:2', 'name:prefix', 'name:infix', 'name:suffix',
-                  'value:bytes', 'value:rawbytes', 'value:number', 'value:nested', 'value:object-repr', 'value:long-nospace', 'value:long-words', 'value:bad-repr', 'inline-section-failure-seen', 'host-context-processor', 'route:render-arg-object',
+                  'value:bytes', 'value:rawbytes', 'value:number', 'value:nested', 'value:object-repr', 'value:long-nospace', 'value:long-words', 'value:url-like', 'value:tuple', 'value:surrogate-str', 'value:bad-repr', 'inline-section-failure-seen', 'host-context-processor', 'route:render-arg-object',
                   'fault-injected', 'same-meta-application-asked-through-two-applications']
 NSHARDS = 16
 SECRET_NAMES = {'prefix': ['secret_key', 'secret-token', 'secretX', 'secret_' + 'x' * 60],
@@ -64,6 +64,16 @@ def make_value(kind, sentinel):
         return ReprCarrier(sentinel)
     if kind == 'long-nospace':     # a URL, a hex digest, a token: long and without a blank to break at
         return sentinel + '/' + 'a1b2c3d4' * 20
+    if kind == 'url-like':        # values that contain what credential scrubbers look for, without being credentials
+        return ['https://social.example/' + sentinel + '/@clastic', 'git+https://code.example/org/' + sentinel + '.git@v1.4',
+                'https://example.org/' + sentinel + '?to=ops@example.org', 'mailto:' + sentinel + '@example.org',
+                'postgres://db.example/' + sentinel + '#user@host'][int(sentinel[-3], 36) % 5]
+    if kind == 'tuple':           # tuples and namedtuples are what '%r' % value trips over
+        import collections
+        Point = collections.namedtuple('Point', 'label x')
+        return [(sentinel, 4, 2), (sentinel,), Point(sentinel, 7), ((sentinel, 1), ())][int(sentinel[-3], 36) % 4]
+    if kind == 'surrogate-str':   # what os.fsdecode makes of a file name that is not UTF-8
+        return '/srv/data/' + sentinel + '/upl\udcf6ads'
     if kind == 'long-words':
         return sentinel + ' lorem ipsum dolor' * 12
     return BadRepr()
@@ -89,7 +99,7 @@ def gen_host(rng, n):
         if name in used:
             continue
         used.add(name)
-        kind = rng.pick(['str', 'str', 'bytes', 'rawbytes', 'number', 'nested', 'object-repr', 'long-nospace', 'long-words'] + (['bad-repr'] if rng.chance(0.15) else []))
+        kind = rng.pick(['str', 'str', 'bytes', 'rawbytes', 'number', 'nested', 'object-repr', 'long-nospace', 'long-words', 'url-like', 'tuple', 'surrogate-str'] + (['bad-repr'] if rng.chance(0.15) else []))
         res.append({'name': name, 'secret': secret, 'pos': pos, 'kind': kind, 'sentinel': sentinel(kind)})
     routes = [rng.pick(['func', 'lambda', 'method', 'callable', 'static', 'classm', 'decorated', 'reroute', 'staticfile', 'staticapp',
                         'subapp', 'render-arg', 'render-arg-object', 'partial-render', 'methods'])
